@@ -26,7 +26,8 @@ THEOREMS = ['C15_tokens_of_appended_options', 'C15_keywords_prefix',
             'C15_like_equals_expanded', 'C15_like_imp_refuted',
             'C15_like_mat_void_refuted', 'C15_like_re_recognises',
             'C15_split_like_card', 'C15_split_then_like_re',
-            'C15_keywords_later_wins_any_scalar']
+            'C15_keywords_later_wins_any_scalar', 'C15_chain_depth',
+            'C15_like_in_parse_all']
 TRUSTED = [
     'hand-written model coq/C15/Model.v (modelled, tied by execution only)',
     'environment of the model, filled per deck from the repository\'s own '
@@ -562,6 +563,60 @@ def witness_void_fails():
     return not same, f'GEOMCOMP names of the LIKE file: {names}'
 
 
+_TAIL = ('\n1 so 1\n2 s 0 0 0 1.4\n5 s 0.4 0.2 0.1 0.5\n9 so 30\n\n'
+         'tr3 0 6 0\n*tr4 0 -6 0 30 60 90 120 30 90 90 90 0\n'
+         'm1 1001 1\nm2 8016 1\nm3 26056 1\n')
+# minimised cases run first on every run: (name, LIKE cards, explicit cards);
+# the other cards of the deck are shared
+_SHARED = ('10 1 -1.0 -1 imp:n=1\n'
+           '20 0 -2 fill=1 (0.1 0 0) imp:n=1 trcl=(0 0 6)\n'
+           '31 2 -2.0 -5 u=1 imp:n=1\n32 0 5 u=1 imp:n=1\n'
+           '41 3 -3.0 -5 u=2 imp:n=1\n42 0 5 u=2 imp:n=1\n'
+           '90 0 -9 #10 #20 #11 #12 #13 #21 #22 imp:n=1\n91 0 9 imp:n=0\n')
+CORPUS = [
+    ('chain of three, one key each',
+     '11 like 10 but trcl=(6 0 0)\n12 LIKE 11 BUT MAT=2 RHO=-2.5 TRCL=(12 0 0)\n'
+     '13 Like 12 But *TRCL=(-6 0 0 30 60 90 120 30 90 90 90 0) imp:n=2\n'
+     '21 like 20 but trcl=(0 0 -6)\n22 like 20 but trcl=(0 0 12)\n',
+     '11 1 -1.0 -1 imp:n=1 trcl=(6 0 0)\n12 2 -2.5 -1 imp:n=1 trcl=(12 0 0)\n'
+     '13 2 -2.5 -1 imp:n=2 *trcl=(-6 0 0 30 60 90 120 30 90 90 90 0)\n'
+     '21 0 -2 fill=1 (0.1 0 0) imp:n=1 trcl=(0 0 -6)\n'
+     '22 0 -2 fill=1 (0.1 0 0) imp:n=1 trcl=(0 0 12)\n'),
+    ('FILL override drops the inherited fill transformation; TRCL by number',
+     '11 like 10 but trcl=3\n12 like 10 but TRCL = 4 u = 7\n13 like 10 but trcl=(-6 0 0)\n'
+     '21 like 20 but fill=2 trcl=(0 0 -6)\n22 like 21 but *FILL=1 (0 0 0.1 30 60 90 120 30 90 90 90 0) trcl=(0 0 12)\n',
+     '11 1 -1.0 -1 imp:n=1 trcl=3\n12 1 -1.0 -1 imp:n=1 u=7 trcl=4\n'
+     '13 1 -1.0 -1 imp:n=1 trcl=(-6 0 0)\n'
+     '21 0 -2 fill=2 imp:n=1 trcl=(0 0 -6)\n'
+     '22 0 -2 *fill=1 (0 0 0.1 30 60 90 120 30 90 90 90 0) imp:n=1 trcl=(0 0 12)\n'),
+    ('void base given a material; spellings',
+     '11 like 32 but mat=3 rho=-7.8 u=0 trcl=(6 0 0)\n12 LIKE 11 BUT RHO -1.5E-1 TRCL ( 12 0 0 )\n'
+     '13 like 10 but imp : n = 4 trcl=(-6 0 0)\n'
+     '21 like 20 but FILL=2(0 0.1 0) trcl=(0 0 -6)\n22 like 20 but u=(8)\n',
+     '11 3 -7.8 5 imp:n=1 trcl=(6 0 0)\n12 3 -1.5E-1 5 imp:n=1 trcl=(12 0 0)\n'
+     '13 1 -1.0 -1 imp:n=4 trcl=(-6 0 0)\n'
+     '21 0 -2 fill=2 (0 0.1 0) imp:n=1 trcl=(0 0 -6)\n'
+     '22 0 -2 fill=1 (0.1 0 0) imp:n=1 u=8 trcl=(0 0 6)\n'),
+]
+
+
+def corpus_failures():
+    out = []
+    for name, like_cards, explicit_cards in CORPUS:
+        for order in (0, 1):
+            a_cards = like_cards + _SHARED if order else _SHARED + like_cards
+            b_cards = explicit_cards + _SHARED if order \
+                else _SHARED + explicit_cards
+            a_text = 'C15 corpus: ' + name + '\n' + a_cards + _TAIL
+            b_text = 'C15 corpus: ' + name + '\n' + b_cards + _TAIL
+            a = impl.convert(a_text, keep_stdout=False)
+            b = impl.convert(b_text, keep_stdout=False)
+            if not (a.ok and b.ok) or \
+                    strip_header(a.text) != strip_header(b.text):
+                out.append((name, a_text, b_text, f'{a} / {b}'))
+    return out
+
+
 def witness_fails():
     a = impl.convert(WITNESS, keep_stdout=False)
     b = impl.convert(WITNESS_EXPANDED, keep_stdout=False)
@@ -613,6 +668,14 @@ def run(res, tier, seed, proofs_ok):
                       {'input': {'deck': WITNESS_VOID,
                                  'expanded': WITNESS_VOID_EXPANDED}},
                       cls=VOID_CLASS, found_input=True)
+
+    for name, a_text, b_text, detail in corpus_failures():
+        res.violation('impl-violation',
+                      f'[corpus] {name}: the LIKE deck is not converted as '
+                      f'its explicit expansion ({detail})',
+                      {'input': {'deck': a_text, 'expanded': b_text},
+                       'oracle': 'corpus'}, found_input=True)
+    res.count('corpus-decks', 2 * len(CORPUS))
 
     # ---- 2. decks: sweep + tie cases ----
     cases, meta = [], []
